@@ -185,10 +185,12 @@ func init() {
 		Quick: tierSpec{Harnesses: []harnessSpec{
 			{Func: gp + "internal/zzverif.VC14", Discover: 2, Reach: []string{"c14.accepted"}},
 			{Func: gp + "internal/zzverif.VC14Sym", Discover: 3, Digits: 3, Reach: []string{"c14s.accepted"}},
+			{Func: gp + "internal/zzverif.VC14Equ", Discover: 2, Reach: []string{"c14e.accepted"}},
 		}},
 		Thorough: tierSpec{Harnesses: []harnessSpec{
 			{Func: gp + "internal/zzverif.VC14", Discover: 2, Params: map[string]int{"allregs": 1}, Reach: []string{"c14.accepted"}},
 			{Func: gp + "internal/zzverif.VC14Sym", Discover: 3, Digits: 3, Params: map[string]int{"allregs": 1}, Reach: []string{"c14s.accepted"}},
+			{Func: gp + "internal/zzverif.VC14Equ", Discover: 2, Reach: []string{"c14e.accepted"}},
 		}},
 	}
 }
